@@ -144,6 +144,8 @@ def run(prop: str, tier: str) -> int:
         run_items(rep, prop, plain, "str", quick, "c14")
         run_items(rep, prop, plain, "dataclass", quick, "c14-objects")
         run_items(rep, prop, ids, "str", quick, "c14-ids")
+        run_items(rep, prop, ids, "str0", quick, "c14-falsy-ids")          # explicit ids 0 and ""
+        run_items(rep, prop, ids, "dataclass", quick, "c14-ids-objects")   # incl. mapper pairs that relocate the id
         run_items(rep, prop, plain if not quick else plain[::3], "ustr", quick, "c14-unicode")
     else:
         if prop == "C12":
